@@ -31,6 +31,10 @@ var IterPrelude = []string{
 	"nestgen = (n) -> for i <- fromto(0, n) for j <- fromto(0, i) yield i * 10 + j",
 	"kval = () -> yield 5",
 	"viay = () -> {\nq = kval()\nyield q + 1\nq\n}",
+	"fa = fact(3)",
+	"fb = fact(10)",
+	"facc = (p) -> {\nq = p * 2\n() -> {\ni = 0\nwhile i < 3 {\nyield p + q + i\ni = i + 1\n}\n}\n}",
+	"fc = facc(100)",
 	"acc = []",
 }
 
@@ -71,7 +75,12 @@ func (g *IterGen) Iter(d int) string {
 		g.Depth = d
 	}
 	if d <= 0 {
-		switch g.pick(9) {
+		switch g.pick(11) {
+		case 9:
+			// closures that read their captured variables after every resume
+			return []string{"fa()", "fb()", "fc()"}[g.pick(3)]
+		case 10:
+			return fmt.Sprintf("facc(%d)", g.pick(20))
 		case 0:
 			return fmt.Sprintf("fromto(%d, %d)", g.pick(4), g.pick(7))
 		case 1:
